@@ -93,12 +93,24 @@ def gen_l3(rng, dv, v6):
     return b + l4, e3, e4
 
 
+# hardware addresses that agree in all but a few octets (first 4 equal, last 4 equal, middle equal): anything that remembers
+# rendered addresses under a key computed from only part of the address confuses them (the process lives across cases)
+MAC_FAMILY = [bytes.fromhex(x) for x in ("02aabbcc0001", "02aabbcc0002", "02aabbccff01", "0211bbcc0001", "fe11bbcc0001", "02aa00cc0001",
+                                          "001b21a0b0c1", "001b21a0b0c2", "001b21a0c0c1", "ff1b21a0b0c1")]
+
+
+def rand_mac(rng, dv):
+    if rng.random() < 0.3:
+        return rng.choice(MAC_FAMILY)
+    return bytes(dv.val(1) for _ in range(6))
+
+
 def gen_raw_header(rng, dv):
     """returns (record body, expected tree).  header_protocol 1 (Ethernet, optional 802.1Q), 11 (IPv4), 12 (IPv6)."""
     hp = rng.choice([1, 1, 1, 11, 12])
     if hp == 1:
         v6 = rng.random() < 0.4
-        dst, src = bytes(dv.val(1) for _ in range(6)), bytes(dv.val(1) for _ in range(6))
+        dst, src = rand_mac(rng, dv), rand_mac(rng, dv)
         et = 0x86DD if v6 else 0x0800
         l3, e3, e4 = gen_l3(rng, dv, v6)
         vlan = 0
